@@ -83,6 +83,78 @@ class Gen:
         newkeys = {dict(kmap).get(k, k) for k in keys}
         return {'sub': {'body': body, 'reps': reps, 'qmap': qmap, 'kmap': kmap, 'rep_ids': rep_ids, 'parent_path': parent}}, newkeys
 
+    def scoped_template(self, code=None):
+        """depth-3 nesting exercising key scoping: loops with repetition ids (and sometimes parent paths / key maps) at two levels, a
+        measurement in the middle (or outer) body and a condition on it in the innermost sub-circuit; optionally the same key name is
+        also measured in an outer scope.  With `code` (an integer) the 11 binary options are taken from its bits, so that the whole
+        option space can be enumerated."""
+        r = self.rng
+        bits = [None]
+
+        def flag(p):
+            if code is None:
+                return r.random() < p
+            if bits[0] is None:
+                bits[0] = code
+            b = bits[0] & 1
+            bits[0] >>= 1
+            return bool(b)
+
+        name = 'a' if code is not None else r.choice(['a', 'b'])
+
+        def meas(q):
+            i = self.next_id; self.next_id += 1
+            self.gates[i] = ('meas', None)
+            return {'op': {'id': i, 'q': [q], 'mkey': {'path': [], 'name': name}, 'conds': []}}
+
+        def cond(q):
+            i = self.next_id; self.next_id += 1
+            self.gates[i] = ('xpow', 1.0)
+            return {'op': {'id': i, 'q': [q], 'mkey': None, 'conds': [{'key': {'path': [], 'name': name}, 'index': -1 if code is not None else r.choice([-1, -1, 0])}]}}
+
+        def u(q):
+            i = self.next_id; self.next_id += 1
+            self.gates[i] = ('xpow', round(0.05 + i * 0.013, 6))
+            return {'op': {'id': i, 'q': [q], 'mkey': None, 'conds': []}}
+
+        def loop(body, reps, ids, parent=None, kmap=None):
+            return {'sub': {'body': body, 'reps': reps, 'qmap': [], 'kmap': kmap or [], 'rep_ids': [f'{ids}{k}' for k in range(reps)] if ids else None,
+                            'parent_path': parent or []}}
+
+        inner = loop([[cond(2)], [u(2)]], 2 if flag(1 / 3) else 1, 'i' if flag(0.5) else None)
+        mid_body = [[u(0)], [meas(0)], [inner]]
+        if flag(0.3):
+            mid_body.insert(0, [cond(1)])  # refers to an outer measurement (or stays external)
+        middle = loop(mid_body, 2 if flag(2 / 3) else 1, 'm' if flag(2 / 3) else None, parent=[r.choice(['p', 'q'])] if flag(0.25) else None,
+                      kmap=[[name, name + '2']] if flag(0.2) else None)
+        outer_body = [[middle]]
+        if flag(0.5):
+            outer_body.insert(0, [meas(1)])  # the same key name measured in the enclosing scope
+        outer = loop(outer_body, 2 if flag(2 / 3) else 1, 'o' if flag(2 / 3) else None)
+        moments = [[outer]]
+        if flag(0.4):
+            moments.insert(0, [meas(1)])
+        if flag(0.4):
+            moments.append([cond(2)])
+        return moments
+
+    def single_qubit_template(self):
+        """a sub-circuit confined to one qubit (the fast path of CircuitOperation._unitary_) with any repetition count"""
+        r = self.rng
+        q = r.randrange(NQ)
+        body = []
+        for _ in range(r.randint(1, 3)):
+            i = self.next_id; self.next_id += 1
+            self.gates[i] = ('xpow', round(0.05 + i * 0.013, 6))
+            body.append([{'op': {'id': i, 'q': [q], 'mkey': None, 'conds': []}}])
+        sub = {'sub': {'body': body, 'reps': r.choice([-3, -2, -1, 0, 1, 2, 3]), 'qmap': [[q, (q + 1) % NQ], [(q + 1) % NQ, q]] if r.random() < 0.4 else [],
+                       'kmap': [], 'rep_ids': None, 'parent_path': []}}
+        if r.random() < 0.3:
+            sub = {'sub': {'body': [[sub]], 'reps': r.choice([1, -1, 2, -2]), 'qmap': [], 'kmap': [], 'rep_ids': None, 'parent_path': []}}
+        i = self.next_id; self.next_id += 1
+        self.gates[i] = ('czpow', round(0.05 + i * 0.013, 6))
+        return [[sub], [{'op': {'id': i, 'q': [0, 1], 'mkey': None, 'conds': []}}]]
+
     def has_meas(self, body):
         for m in body:
             for n in m:
@@ -198,7 +270,13 @@ def run(ctx: common.Run):
     cases, reqs = [], []
     for i in range(n + 1):
         g = Gen(rng)
-        moments, _ = g.body(rng.choice([1, 1, 2, 3]), set())
+        mode = rng.choice(['random'] * 5 + ['scoped'] * 3 + ['single'] * 2)
+        if mode == 'random':
+            moments, _ = g.body(rng.choice([1, 1, 2, 3]), set())
+        elif mode == 'scoped':
+            moments = g.scoped_template()
+        else:
+            moments = g.single_qubit_template()
         if i == 0:  # corpus: witness of the known finding unroll:unitary-raises:zero-reps always runs
             g = Gen(rng)
             g.gates = {1: ('xpow', 0.063), 2: ('meas', None), 3: ('xpow', 0.089)}
@@ -255,6 +333,23 @@ def run(ctx: common.Run):
             pos = {q: j for j, q in enumerate(qs)}
             lops = [{'m': [common.c2j(z) for z in cirq.unitary(op).reshape(-1)], 'axes': [pos[q] for q in op.qubits]} for op in spec_circuit.all_operations()]
             want = np.array([[common.j2c(z) for z in row] for row in ctx.driver.ask([{'p': 'C01', 'op': 'unitary', 'shape': [2] * NQ, 'ops': lops}])[0]])
+            # the unitary of each top-level circuit operation by itself (protocol on the operation, not through Circuit.unitary)
+            for m_nodes, m_real in zip(moments, wrapped):
+                for node, op_real in zip(m_nodes, m_real.operations):
+                    if 'sub' not in node:
+                        continue
+                    sub_spec = ctx.driver.ask([{'p': 'C12', 'op': 'unroll', 'moments': [[node]]}])[0]
+                    opq = list(op_real.qubits)
+                    posq = {q: j for j, q in enumerate(opq)}
+                    sub_ops = [b.flat_to_cirq(f) for f in sub_spec]
+                    if not all(set(o.qubits) <= set(opq) for o in sub_ops):
+                        continue
+                    lops2 = [{'m': [common.c2j(z) for z in cirq.unitary(o).reshape(-1)], 'axes': [posq[q] for q in o.qubits]} for o in sub_ops]
+                    want_op = np.array([[common.j2c(z) for z in row] for row in ctx.driver.ask([{'p': 'C01', 'op': 'unitary', 'shape': [2] * len(opq), 'ops': lops2}])[0]])
+                    got_op = cirq.unitary(op_real, None)
+                    ctx.count('check', 'op-unitary')
+                    if got_op is None or not np.allclose(got_op, want_op, atol=1e-7):
+                        report('unroll:op-unitary', 'cirq.unitary of a circuit operation differs from the unitary of its unrolled form', repr(op_real)[:500], 'unrolled product')
             try:
                 gotu = wrapped.unitary(qubit_order=qs, qubits_that_should_be_present=qs)
             except ValueError as e:
@@ -291,6 +386,35 @@ def run(ctx: common.Run):
             ctx.report_witness('unroll:distribution', 'joint record distribution of the wrapped circuit differs from that of its unrolled form',
                                {'lines': [{'circuit': repr(wrapped), 'structure': moments}], 'impl_out': [sorted((repr(k), round(v, 8)) for k, v in got.items())],
                                 'spec_out': [sorted((repr(k), round(v, 8)) for k, v in want.items())], 'theorem_or_correspondence': 'wrap_eq_unroll (distribution)'})
+
+    # (5) the whole option space of the scoping template (12 binary options), structure and key queries only
+    codes = range(4096) if ctx.tier != 'quick' else [c for c in range(4096) if (c * 2654435761 + ctx.seed) % 4 == 0]
+    ecases = []
+    for code in codes:
+        g = Gen(rng)
+        ecases.append((g, g.scoped_template(code)))
+    eouts = ctx.driver.ask([{'p': 'C12', 'op': 'unroll', 'moments': m} for _, m in ecases])
+    for (g, moments), spec in zip(ecases, eouts):
+        b = Builder(cirq, g.gates)
+        try:
+            wrapped = cirq.Circuit([cirq.Moment([b.node(x) for x in m]) for m in moments])
+            unrolled = cirq.unroll_circuit_op(wrapped, deep=True, tags_to_check=None)
+        except ValueError as e:
+            ctx.count('scoped_enum', 'rejected: ' + str(e)[:40])
+            continue
+        ctx.case(moments, True)
+        ctx.count('scoped_enum', 'checked')
+        got = [b.describe(op) for op in unrolled.all_operations()]
+        rep = {'lines': [{'circuit': repr(wrapped), 'structure': moments}], 'impl_out': [got], 'spec_out': [spec],
+               'theorem_or_correspondence': 'Model.C12.unrollCircuit (wrap_eq_unroll), enumerated scoping template'}
+        if got != spec:
+            ctx.report_witness('unroll:structure', 'unroll_circuit_op(deep=True) differs from the specified unrolled form (key scoping / condition binding)', rep)
+            continue
+        spec_circuit = cirq.Circuit(b.flat_to_cirq(f) for f in spec)
+        if cirq.measurement_key_names(wrapped) != cirq.measurement_key_names(spec_circuit):
+            ctx.report_witness('query:measurement_key_names', 'measurement keys of the wrapped circuit differ from those of its unrolled form', rep)
+        if {str(k) for k in cirq.control_keys(wrapped)} != {str(k) for k in cirq.control_keys(spec_circuit)}:
+            ctx.report_witness('query:control_keys', 'control keys of the wrapped circuit differ from those of its unrolled form', rep)
 
 
 def depth_of(moments):
